@@ -37,23 +37,41 @@ def ew (args : List String) : String :=
   | none => "bad-op"
   | some w => s!"{toHex w.out} n={w.n} v={w.v}"
 
+/-- one plain-reader op: `k` Read(k), `sK` ReadSigned(K), `f` ReadFlag, `po` counters, `rem` ReadRemainingBytes -/
+def brStep (r : BR) (a : String) : Option (BR × String) :=
+  if a = "f" then
+    let (r', v) := r.readFlag
+    some (r', if v then "1" else "0")
+  else if a = "po" then some (r, s!"p{r.nrBytesRead}.{r.nrBitsRead}")
+  else if a = "rem" then
+    let (r', bs) := r.readRemainingBytes
+    some (r', match bs with | none => "nil" | some b => "x" ++ toHex b)
+  else if a.startsWith "s" then do
+    let k ← (a.drop 1).toNat?
+    let (r', v) := r.readSigned k
+    pure (r', toString v)
+  else do
+    let k ← a.toNat?
+    let (r', v) := r.read k
+    pure (r', toString v)
+
 def br (args : List String) : String :=
   match args with
   | hex :: ops =>
     match fromHex hex with
     | none => "bad-op"
     | some bs =>
-      let rec go (r : BR) (acc : List Nat) : List String → Option (BR × List Nat)
+      let rec go (r : BR) (acc : List String) : List String → Option (BR × List String)
         | [] => some (r, acc)
         | a :: as => do
-          let k ← a.toNat?
-          let (r', v) := r.read k
+          let (r', v) ← brStep r a
           if r'.err then some (r', acc ++ [v]) else go r' (acc ++ [v]) as
       match go { rest := bs } [] ops with
       | none => "bad-op"
       | some (r, vals) =>
-        if r.err then s!"{showNats vals} err nb={r.nrBytesRead}"
-        else s!"{showNats vals} ok nb={r.nrBytesRead} nbits={r.nrBitsRead}"
+        let vs := if vals.isEmpty then "-" else ",".intercalate vals
+        if r.err then s!"{vs} err nb={r.nrBytesRead}"
+        else s!"{vs} ok nb={r.nrBytesRead} nbits={r.nrBitsRead}"
   | _ => "bad-op"
 
 def erStep (st : ER × List String) (a : String) : Option (ER × List String) :=
@@ -68,7 +86,8 @@ def erStep (st : ER × List String) (a : String) : Option (ER × List String) :=
   | ["fl"] => let (r', v) := r.readFlag; some (r', acc ++ [if v then "1" else "0"])
   | ["by", k] => do
     let (r', bs) := ER.readBytes (← k.toNat?) r []
-    pure (r', acc ++ [if r'.err then "nil" else toHex bs])
+    pure (r', acc ++ [if r'.err then "nil" else "x" ++ toHex bs])
+  | ["po"] => some (r, acc ++ [s!"p{r.nrBytesRead}.{r.nrBitsRead}"])
   | ["mo"] => let (r', more) := Mp4ff.Sei.moreRbspData r; some (r', acc ++ [if more then "m1" else "m0"])
   | _ => none
 
